@@ -34,6 +34,7 @@ SINK = "grep_searcher::sink::Sink"
 FIND_BYTE = "bstr::ext_slice::ByteSlice::find_byte"
 HI = "rg::flags::hiargs::HiArgs"
 SW = "rg::search::SearchWorker"
+SC = "rg::search::Config"
 
 
 def run(ctx):
@@ -52,6 +53,49 @@ def run(ctx):
                     r.ok(f.name, "binary check precedes delivery and its quit answer stops it", fn=f)
             else:
                 r.bad(f.name, "%s can deliver a line without the binary check" % f.name, fn=f, construct="detect_binary")
+
+    with ctx.rule("C14.DETECT", "detect_binary scans the whole given range unless an offset is already known or detection is off",
+                  floor=2, kind="PASS") as r:
+        f = facts.fn(CORE + "::detect_binary")
+        eb = ExprBuilder(f)
+        fb = f.calls_to(FIND_BYTE)
+        known = cond_switches(f, lambda e: is_call(e, "core::option::Option::is_some") and mentions_field(e, CORE, "binary_byte_offset"), eb)
+        arms, info = W.variant_arms(f, eb, lambda e: mentions_field(e, "grep_searcher::searcher::BinaryDetection", "0") or
+                                    mentions_field(e, "grep_searcher::searcher::Config", "binary"))
+        bd = [i for i in info if i[1] == LBD]
+        if not fb or not known or not bd:
+            r.bad("shape", "anchor-missing: detect_binary (find_byte %d, offset-known test %d, mode match %d)" % (len(fb), len(known), len(bd)), fn=f)
+        else:
+            removed = {known[0][1]}
+            # the `_ => return Ok(false)` arm: detection disabled
+            swbb, _, missing, ow, ow_live = bd[0]
+            if "None" in arms:
+                removed.add((swbb, arms["None"]))
+            else:
+                removed.add((swbb, ow))
+            esc = C.all_paths_pass(f, [0], {fb[0].bb}, f.return_blocks(), removed_edges=removed)
+            if esc:
+                r.bad("scan", "detect_binary can return without scanning the range although no binary offset is known and detection "
+                      "is on: a NUL in a delivered line would reach the printer", fn=f, construct="scan")
+            else:
+                r.ok("scan", "every path scans unless (offset already known) or (detection None)", fn=f)
+            hay = eb.operand(fb[0].args[0])
+            idx = [x for x in walk(hay) if is_call(x, "core::ops::index::Index::index")]
+            okh = len(idx) == 1 and any(y.k == "arg" and y[2] == "buf" for y in walk(idx[0][3][0])) and \
+                any(y.k == "arg" and y[2] == "range" for y in walk(idx[0][3][1]))
+            if okh:
+                r.ok("range", "the scan covers buf[*range] (the whole delivered range)", fn=f)
+            else:
+                r.bad("range", "detect_binary scans `%s`, not buf[*range]" % show(hay)[:80], fn=f, construct="scan")
+            # a found byte records the offset and notifies the sink
+            s = seed_after_call(f, fb[0], V("Some", None))
+            wrote = any(st["k"] == "assign" and (CORE, "binary_byte_offset") in fields_of_place(st["place"])
+                        for bb, j, st in f.stmts() if bb in s.exec_blocks)
+            told = any(c.bb in s.exec_blocks for c in f.calls_to(CORE + "::binary_data"))
+            if wrote and told:
+                r.ok("found", "found ⇒ offset recorded and Sink::binary_data notified", fn=f)
+            else:
+                r.bad("found", "a found NUL is not recorded / reported to the sink", fn=f, construct="found")
 
     with ctx.rule("C14.SNIFF", "prefix sniff dominates the slice search loops; Core::new binary constants", floor=6,
                   kind="DOM/A3") as r:
@@ -327,26 +371,7 @@ def mode_rule(ctx, r):
                       construct="table")
             if "quit" in ex:
                 r.bad("explicit-quit", "an explicitly named file can be dropped by binary detection (explicit = quit)", fn=f)
-    # SearchWorker::search
-    s = facts.fn(SW + "::search")
-    eb = ExprBuilder(s)
-    sbd = s.calls_to("grep_searcher::searcher::Searcher::set_binary_detection")
-    searches = [c for c in s.calls() if c.path in (SW + "::search_reader", SW + "::search_preprocessor",
-                                                   SW + "::search_decompress", SW + "::search_path")]
-    if len(sbd) == 1 and len(searches) == 4 and all(C.dominates(s, sbd[0].bb, c.bb) for c in searches):
-        r.ok("search|installed", "set_binary_detection dominates the 4 search calls", fn=s)
-    else:
-        r.bad("search|installed", "a search can start before the per-file binary detection is installed", fn=s, construct="install")
-    SC = "rg::search::Config"
-    ex_sites = [bb for bb, j, st in s.stmts() if st["k"] == "assign" and st["rv"]["k"] in ("ref",) and
-                (SC, "binary_explicit") in fields_of_place(st["rv"]["place"])]
-    im_sites = [bb for bb, j, st in s.stmts() if st["k"] == "assign" and st["rv"]["k"] in ("ref",) and
-                (SC, "binary_implicit") in fields_of_place(st["rv"]["place"])]
-    ie = cond_switches(s, lambda e: is_call(e, "rg::haystack::Haystack::is_explicit"), eb)
-    if ie and ex_sites and im_sites and not guarded(s, ex_sites, ie, True) and not guarded(s, im_sites, ie, False):
-        r.ok("search|choice", "explicit detection iff haystack.is_explicit()", fn=s)
-    else:
-        r.bad("search|choice", "the detection mode is not chosen by is_explicit()", fn=s, construct="choice")
+    perfile_rule(ctx, r)
     g = facts.fn("grep_searcher::searcher::Searcher::set_binary_detection")
     _, w, _ = field_rw(g)
     if ("grep_searcher::searcher::Config", "binary") in w and g.calls_to(LB + "::set_binary_detection"):
@@ -393,3 +418,29 @@ class _NoInline:
         if local.get("name") in self.names:
             return None
         return self.env.init_of(local, any_type)
+
+
+def perfile_rule(ctx, r):
+    """Per-file state: the detection mode is chosen and installed for EVERY haystack before it is searched
+    (a reused per-thread searcher must not carry the previous file's mode)."""
+    facts = ctx.facts
+    # SearchWorker::search
+    s = facts.fn(SW + "::search")
+    eb = ExprBuilder(s)
+    sbd = s.calls_to("grep_searcher::searcher::Searcher::set_binary_detection")
+    searches = [c for c in s.calls() if c.path in (SW + "::search_reader", SW + "::search_preprocessor",
+                                                   SW + "::search_decompress", SW + "::search_path")]
+    if len(sbd) == 1 and len(searches) == 4 and all(C.dominates(s, sbd[0].bb, c.bb) for c in searches):
+        r.ok("search|installed", "set_binary_detection dominates the 4 search calls", fn=s)
+    else:
+        r.bad("search|installed", "a search can start before the per-file binary detection is installed", fn=s, construct="install")
+    SC = "rg::search::Config"
+    ex_sites = [bb for bb, j, st in s.stmts() if st["k"] == "assign" and st["rv"]["k"] in ("ref",) and
+                (SC, "binary_explicit") in fields_of_place(st["rv"]["place"])]
+    im_sites = [bb for bb, j, st in s.stmts() if st["k"] == "assign" and st["rv"]["k"] in ("ref",) and
+                (SC, "binary_implicit") in fields_of_place(st["rv"]["place"])]
+    ie = cond_switches(s, lambda e: is_call(e, "rg::haystack::Haystack::is_explicit"), eb)
+    if ie and ex_sites and im_sites and not guarded(s, ex_sites, ie, True) and not guarded(s, im_sites, ie, False):
+        r.ok("search|choice", "explicit detection iff haystack.is_explicit()", fn=s)
+    else:
+        r.bad("search|choice", "the detection mode is not chosen by is_explicit()", fn=s, construct="choice")
